@@ -33,6 +33,7 @@ def run(prog, rep, tier):
     check_retention(prog, r2)
     r3 = rep.rule("R10.3", "cancel_gr_timer is always paired with a state advance, re-arm or purge")
     check_cancel(prog, r3)
+    check_established_reported(prog, r3)
     r4 = rep.rule("R10.4", "every GrOutput possible for an input is consumed where that input is fed")
     check_outputs_honoured(prog, r4, arms)
     r5 = rep.rule("R10.5", "stale purge spares re-announced routes (matches peer address and stale source only)")
@@ -455,3 +456,25 @@ def check_purge_predicate(prog, r):
             r.ok("%s: retain predicate tests remote_addr and %s" % (m, need.split("::")[-1]))
         else:
             r.fail(prog.name(k), "purge-predicate", "%s does not restrict the purge to (peer address, %s)" % (m, need.split("::")[-1]), "table/src/lib.rs")
+
+
+def check_established_reported(prog, r):
+    """A session that comes up is reported to the helper machinery (GlobalEffect::GrSessionEstablished) whether or not it negotiated
+    graceful restart: that report is what cancels a restart timer left running from the previous session.  If it is sent only when
+    GR was negotiated, a peer that comes back *without* GR keeps the old timer, and its expiry purges the routes of the live session."""
+    k = prog.one(r"rustybgpd::event::PeerSession::apply_outputs")
+    bodies = [view(prog, kk) for kk in prog.with_closures(k)]
+    r.analysed(prog.name(k))
+    n = 0
+    for fv in bodies:
+        for bi, si, st in fv.aggregates(re.compile(r"rustybgpd::event::GlobalEffect$"), "GrSessionEstablished"):
+            n += 1
+            brs = branches(fv, Renderer(fv, depth=12, through_names=True))
+            cond = [g for g, l, h in flat_guards(fv, bi, brs, named=True) if {"negotiated_gr", "negotiated_llgr"} & set(expr_fields(g))]
+            if cond:
+                r.fail(prog.name(k), "established-report-conditional", "GrSessionEstablished is pushed only under %s: a peer that re-establishes without the capability never cancels the restart "
+                       "timer of its previous session, and the timer's expiry drops the routes announced on the new one" % show(cond[0], 60), fv.loc(bi))
+            else:
+                r.ok("apply_outputs: GrSessionEstablished is reported for every established session, with or without GR")
+    if n == 0:
+        r.unanalysable("apply_outputs: GlobalEffect::GrSessionEstablished is never built", bodies[0].loc())
